@@ -18,6 +18,8 @@
      as in Go;
    - [for] loops run on explicit fuel ([OutOfFuel] when exhausted), [range]
      loops are structural on the ranged list;
+   - a local pointer to a struct is expanded into one slot per field plus a
+     nil flag; reading or writing a field of a nil pointer is [Panic] ([EDeref]);
    - anything the translator does not understand becomes [SUnsupported] /
      [EUnsupported], which evaluate to [Stuck].
    No proofs here. *)
@@ -76,6 +78,7 @@ Inductive expr : Type :=
 | EAppendSlice (a b : expr)
 | EBytesToUint (big : bool) (k : nat) (a : expr)
 | ECall (f : string) (args : exprs)
+| EDeref (isnil : expr) (e : expr)      (* p.f: Panic when the pointer p is nil *)
 | EUnsupported (what : string)
 with exprs : Type :=
 | ENil
@@ -298,6 +301,13 @@ Section Eval.
     | ECall f args =>
         rbind (evals st args) (fun vs => rbind (fe f vs) (fun rs =>
           match rs with [r] => Ok r | _ => Stuck end))
+    | EDeref isnil a =>
+        rbind (eval st isnil) (fun vn =>
+          match vn with
+          | VB true => Panic
+          | VB false => eval st a
+          | _ => Stuck
+          end)
     | EUnsupported _ => Stuck
     end
   with evals (st : state) (es : exprs) {struct es} : res (list val) :=
